@@ -39,7 +39,7 @@ pub static DEF: CheckDef = CheckDef {
 };
 
 fn families(t: Tier) -> Vec<(&'static str, u64)> {
-    vec![("iff", t.n(6_000, 120_000)), ("flow", t.n(30_000, 800_000)), ("clones", t.n(2_000, 50_000))]
+    vec![("iff", t.n(6_000, 360_000)), ("flow", t.n(30_000, 2_400_000)), ("clones", t.n(2_000, 200_000))]
 }
 fn floors(_t: Tier) -> Vec<(&'static str, u64)> {
     vec![
